@@ -6,7 +6,7 @@ open Proto
 
 `updp <graph> O=<a-b,…> u= c= [first=] [second=] [forbid=] fc=0|1 [p=<path of the implementation>]`
   → `m=<T|F|err:…>:<model path> ex=<T|F> v=<T|F|->`
-`disc <graph> O=<a-b,…> BO=<a-b,…> u= a= c= [p=…]` → same format
+`disc <graph> O=<a-b,…> BO=<a-b,…> u= a= c= [p=…]` → same format plus `w=` (validation against `DiscPathWeak`)
 
 `O` lists, per node a, its neighbours b in the iteration order of `graph.neighbors(a)`; `BO` the
 iteration order of the bidirected layer.  Without `O`/`BO` ascending / storage order is used.
@@ -43,7 +43,8 @@ def handleDisc : Handler := fun a =>
     | .error e => "err:" ++ e ++ ":"
   let ex := fmtBool (discExists G u x c)
   let v := if a.has "p" then fmtBool (decide (DiscPath G u x c (dashPath (a.get "p")))) else "-"
-  "m=" ++ m ++ " ex=" ++ ex ++ " v=" ++ v
+  let w := if a.has "p" then fmtBool (decide (DiscPathWeak G u x c (dashPath (a.get "p")))) else "-"
+  "m=" ++ m ++ " ex=" ++ ex ++ " v=" ++ v ++ " w=" ++ w
 
 def handlers : List (String × Handler) := [("updp", handleUpdp), ("disc", handleDisc)]
 end C18
